@@ -131,6 +131,13 @@ pub fn c10(tier: &str, seed: u64) -> Vec<Case> {
                     let e = &w.sections[0][1];
                     let mut c = Case::oracle_only().tag("compressed-writer-rdata");
                     if !compressible && cb[e.rd_start..e.next()] != lib[..] { c = c.fail("layout-written-compressed", format!("{}: the compressing writer does not emit the RFC encoding of the RDATA", KIND_NAMES[kind])); }
+                    // the types of RFC 1035 / 1183 whose names may be compressed: the same fields in the same
+                    // order, names possibly as pointers - the record reads back with the values it was built from
+                    if compressible {
+                        let cbb = cb.clone();
+                        let back = std::panic::catch_unwind(move || Packet::parse(&cbb).ok().and_then(|q| q.answers.get(1).map(text::rr))).unwrap_or(None);
+                        if back.as_deref() != Some(&text::rr(&p2.answers[1])[..]) { c = c.fail("layout-written-compressed", format!("{}: the RDATA written by the compressing writer does not read back as the values it was built from", KIND_NAMES[kind])); }
+                    }
                     v.push(c);
                 }
             }
@@ -296,9 +303,9 @@ pub fn c09(tier: &str, seed: u64) -> Vec<Case> {
         for ver in versions {
             for udp in udps {
                 for extra in 0..(if thorough { 12 } else { 3 }) {
-                    let nopts = r.below(4) as usize;
+                    let nopts = if extra == 1 && ver == 3 { *r.pick(&[32usize, 33, 40, 120]) } else { r.below(4) as usize };
                     let opt = OPT { udp_packet_size: udp, version: ver,
-                        opt_codes: (0..nopts).map(|_| { let l = *r.pick(&[0usize, 1, 3, 255, 1000]); OPTCode { code: if r.chance(1, 2) { r.below(20) as u16 } else { r.next() as u16 }, data: r.bytes(l).into() } }).collect() };
+                        opt_codes: (0..nopts).map(|_| { let l = if nopts > 8 { r.below(3) as usize } else { *r.pick(&[0usize, 1, 3, 255, 1000]) }; OPTCode { code: if r.chance(1, 2) { r.below(20) as u16 } else { r.next() as u16 }, data: r.bytes(l).into() } }).collect() };
                     // replies and (every third) queries: the split of the response code does not depend on QR
                     let mut p = if extra % 3 == 2 { Packet::new_query(r.next() as u16) } else { Packet::new_reply(r.next() as u16) };
                     *p.rcode_mut() = *rc;
